@@ -75,6 +75,10 @@ impl ChannelRegion for AU915Region {
 }
 
 impl FixedChannelRegion for AU915Region {
+    // RP002: Join-Requests use DR2 (SF10/125 kHz) and DR6 (SF8/500 kHz). AU915 numbers its data
+    // rates differently from US915: DR4 is SF8/125 kHz and cannot be used on a 500 kHz channel.
+    const JOIN_DR_125KHZ: DR = DR::_2;
+    const JOIN_DR_500KHZ: DR = DR::_6;
     fn uplink_channels() -> &'static [u32; 72] {
         &UPLINK_CHANNEL_MAP
     }
